@@ -360,6 +360,8 @@ class Interp:
         if "copy" in o or "move" in o:
             return self.load_place(st, o.get("copy") or o.get("move"))
         if "const" in o:
+            if o["const"].get("k") == "generic" and st.get("gconst") is not None:
+                return Lin(st["gconst"])        # the callee's single const generic parameter, bound at the inlined call site
             c = ir.const_expr(o["const"])
             v = ir.const_value(c)
             ty = ty_str(o["const"].get("ty", ""))
@@ -617,7 +619,7 @@ class Interp:
     def _clone(self, st):
         return {"body": st["body"], "env": dict(st["env"]), "heap": dict(st["heap"]), "ctx": st["ctx"].copy(),
                 "regions": dict(st["regions"]), "trace": list(st["trace"]), "events": list(st["events"]), "sp": st["sp"],
-                "borrowed": st.get("borrowed", frozenset()),
+                "borrowed": st.get("borrowed", frozenset()), "gconst": st.get("gconst"),
                 "stack": [dict(fr, env=dict(fr["env"])) for fr in st["stack"]]}
 
     def _ty(self, body, l):
@@ -706,6 +708,7 @@ class Interp:
                     fr = st["stack"].pop()
                     ret = st["env"].get(0)
                     st["body"], st["env"] = fr["body"], fr["env"]
+                    st["gconst"] = fr.get("gconst")
                     body = st["body"]
                     self.store(st, fr["dest"], ret if ret is not None else self.opaque())
                     bb = fr["target"]
@@ -872,6 +875,14 @@ class Interp:
             # lossless integer conversion (From is only implemented for widenings)
             self.store(st, t["dest"], args[0])
             return None
+        if name.endswith("std::ops::Try>::branch") and len(args) == 1 and isinstance(args[0], tuple) and args[0][0] in ('some', 'none', 'ok'):
+            a0 = args[0]
+            # `x?`: Continue(payload) for Some / Ok, Break(residual) for None
+            self.store(st, t["dest"], ('enum', 0, (a0[1],)) if a0[0] in ('some', 'ok') else ('enum', 1, (('none',),)))
+            return None
+        if name.endswith("std::ops::FromResidual>::from_residual") and name.startswith("<std::option::Option"):
+            self.store(st, t["dest"], ('none',))
+            return None
         if short in ("is_break", "is_continue", "is_some", "is_none", "is_ok", "is_err") and len(args) == 1 and isinstance(args[0], tuple):
             a0 = args[0]
             vi = a0[1] if a0[0] == 'enum' else (1 if a0[0] == 'some' else 0 if a0[0] == 'none' else 0 if a0[0] == 'ok' else None)
@@ -921,8 +932,11 @@ class Interp:
                 env = {}
                 for i in range(1, cb.argc + 1):
                     env[i] = args[i - 1]
-                st["stack"].append({"body": st["body"], "env": st["env"], "dest": t["dest"], "target": t["target"], "visits": visits})
+                st["stack"].append({"body": st["body"], "env": st["env"], "dest": t["dest"], "target": t["target"], "visits": visits,
+                                    "gconst": st.get("gconst")})
                 st["body"], st["env"] = cb, env
+                cargs = [a for a in t["func"].get("args", []) if isinstance(a, dict) and a.get("constarg")]
+                st["gconst"] = int(cargs[0]["s"]) if len(cargs) == 1 and str(cargs[0].get("s", "")).isdigit() else None
                 self.stats["inlined"] += 1
                 return 'inlined'
         # unknown callee: must not receive `self` mutably (it could move the cursors)
